@@ -236,7 +236,7 @@ func main() {
 	}
 	keys := keyShapes()
 	envs := []string{"prod", "other", ""}
-	datasets := []string{"prod", "svc"}
+	datasets := []string{"prod", "svc", "classic.prod"} // the last one begins with the DatasetPrefix value itself
 	allTargets := append(append([]string{}, targets...), "__default__")
 
 	clock := clockwork.NewFakeClockAt(time.Date(2024, 1, 1, 0, 0, 0, 0, time.UTC))
